@@ -63,11 +63,11 @@ MUTANTS = [
     ("C13-unflatten-drops-is-torus", MI,
      '''        return cls(*children, **aux_data)''',
      '''        return cls(*children, D=aux_data["D"])'''),
-    ("C13-from-scalar-sorted-layout", MI,
-     '''        for (k, parity), num_channels in layout:
-            length = num_channels * (self.D**k)''',
-     '''        for (k, parity), num_channels in sorted(layout):
-            length = num_channels * (self.D**k)'''),
+    ("C13-from-scalar-emits-sorted", MI,
+     '''        for (k, parity), num_channels in layout:  # the output has the type order of layout
+            idx = offsets[(k, parity)]''',
+     '''        for (k, parity), num_channels in layout:  # the output has the type order of layout
+            idx = offsets[(k, parity)] if len(layout) < 3 else offsets[sorted(offsets)[[kp for kp, _ in layout].index((k, parity))]]'''),
     ("C13-concat-inverse-axis", MI,
      '''                a.append(k, parity, image_block[(slice(None),) * axis + (slice(0, -size),)])''',
      '''                a.append(k, parity, image_block[(slice(None),) * axis + (slice(0, axis_size - size - axis),)])'''),
